@@ -78,6 +78,33 @@ Fixpoint seen_before (name : bytes) (history : list request) : Z :=
   | r :: h => (if bytes_eqb name (name_of r) then 1 else 0) + seen_before name h
   end.
 
+(* overlapping requests: a history is a list of BEGIN / END events (a request begins when it reaches the
+   server, ends when the server is done with it; any number of others may begin and end in between).
+   What counts for "repeated request of the same test" is how many requests of that test BEGAN earlier -
+   whether or not they have ended. *)
+Fixpoint begun_before (name : bytes) (history : list event) : Z :=
+  match history with
+  | [] => 0
+  | EvBegin r :: h => (if bytes_eqb name (name_of r) then 1 else 0) + begun_before name h
+  | EvEnd _ :: h => begun_before name h
+  end.
+(* what is written while an event is processed *)
+Definition written (o : ev_out) : fb :=
+  match o with OBegin o => feedback_of o | OEnd _ f => f | OIdle => [] end.
+
+(* ---------- 2b. the assembled server and its one deliberate exemption ---------- *)
+(* The reference server serves five procedures.  connect-go refuses a bidirectional stream on a request
+   that says HTTP/1.x; to test half-duplex bidi over HTTP/1.1 the reference server therefore tells the RPC
+   handler of BidiStream - and only that handler - that such a request is HTTP/2.  This is the whole
+   exemption: it concerns what the RPC handler is told, NOT what is judged.  The HTTP version of every
+   request, BidiStream over HTTP/1.1 included, is judged as it arrived on the wire, so the matrix statements
+   (silent iff everything matches, one line per deviating aspect) hold for all five procedures unchanged. *)
+Definition handler_version (p : procedure) (wire : Z) : Z :=
+  match p with
+  | ProcBidiStream => if wire =? 1 then 2 else wire
+  | _ => wire
+  end.
+
 (* ---------- 3. the timeout grammars ---------- *)
 Definition digit (c : N) : Prop := (48 <= c <= 57)%N.
 Definition digits (s : bytes) : Prop := s <> [] /\ Forall digit s.
